@@ -105,6 +105,30 @@ func (g *gen) steps(db int) {
 	}
 }
 
+// seqScript: 2 or 3 neighbours with every kind of answer in a generated arrival order ("never" only after a claim: without one
+// the caller would wait for it for ever)
+func (g *gen) seqScript() string {
+	n := 2 + g.r.Intn(2)
+	kinds := []string{"err", "clean", "claim", "live", "op", "err", "clean"}
+	var out []string
+	claimed := false
+	for i := 0; i < n; i++ {
+		k := hx.Pick(g.r, kinds)
+		if claimed && g.r.Chance(1, 3) {
+			k = "never"
+		}
+		if k == "claim" {
+			claimed = true
+		}
+		out = append(out, k)
+	}
+	s := "seq:" + out[0]
+	for _, k := range out[1:] {
+		s += "," + k
+	}
+	return s
+}
+
 func (g *gen) ownership(o *opJ) {
 	switch g.r.Intn(4) {
 	case 0: // all keys, AllDataOwnership
@@ -113,7 +137,10 @@ func (g *gen) ownership(o *opJ) {
 	default:
 		lo := g.r.Intn(g.kgs)
 		o.Lo, o.Hi = lo, lo+1+g.r.Intn(g.kgs-lo)
-		o.Nb = hx.Pick(g.r, []string{"needs", "err", "slow-needs", "slow-err", "live", "live", "slow-live", "op", "op", "needs+late", "live+late", "op+late"})
+		o.Nb = hx.Pick(g.r, []string{"needs", "err", "slow-needs", "slow-err", "live", "live", "slow-live", "op", "op", "needs+late", "live+late", "op+late", "seq", "seq", "seq", "seq"})
+		if o.Nb == "seq" {
+			o.Nb = g.seqScript()
+		}
 	}
 }
 
@@ -421,7 +448,12 @@ func (g *gen) rescale() {
 	id := g.ckpt(0)
 	g.add(opJ{Op: "drain", DB: 0})
 	g.add(opJ{Op: "crash", DB: 0})
-	nb := hx.Pick(g.r, []string{"op", "op", "live", "slow-op", "live+late", "op+late"})
+	nb := hx.Pick(g.r, []string{"op", "op", "live", "slow-op", "live+late", "op+late", "seq", "seq", "seq"})
+	if nb == "seq" {
+		// the truthful neighbour among failing / clean ones, in every order
+		nb = hx.Pick(g.r, []string{"seq:err,clean", "seq:clean,err", "seq:err,err", "seq:live,clean", "seq:clean,live", "seq:err,live", "seq:live,err",
+			"seq:op,clean", "seq:clean,op", "seq:err,clean,clean", "seq:clean,err,clean", "seq:clean,clean,live", "seq:live,clean,err", "seq:claim,never", "seq:clean,claim,never"})
+	}
 	split := 1 + g.r.Intn(g.kgs-1)
 	g.add(opJ{Op: "restore", ID: id, Lo: 0, Hi: split, Nb: nb})
 	a := g.ndb
